@@ -39,3 +39,13 @@ Proof.
   - destruct H as [H|[]]; discriminate.
   - destruct H as [H|[H|[]]]; [|discriminate]. inversion H; subst. exists e. auto.
 Qed.
+
+(** Only an error that is itself a SanitizedError is passed on: an ordinary error that merely wraps a
+    safe one keeps its response path and reaches the client as the generic message. *)
+Lemma only_sanitized_forwarded : forall e, sanitize e <> "Internal server error" -> safe (pe_err e) = true.
+Proof. intros e H. unfold sanitize in H. destruct (safe (pe_err e)); auto. Qed.
+
+Lemma wraps_safe_not_forwarded : forall p t,
+  nest p (mk_err EWrapsSafe t) = mk_perr (mk_err EWrapsSafe t) p /\
+  sanitize (nest p (mk_err EWrapsSafe t)) = "Internal server error".
+Proof. intros p t. split; reflexivity. Qed.
